@@ -135,38 +135,60 @@ def withFFG (s : State) (f : FFG) : State :=
   { s with justification_bits := f.justification_bits, previous_justified_checkpoint := f.previous_justified_checkpoint,
            current_justified_checkpoint := f.current_justified_checkpoint, finalized_checkpoint := f.finalized_checkpoint }
 
-def weigh_justification_and_finalization (cfg : Config) (s : State)
-    (total_active_balance previous_epoch_target_balance current_epoch_target_balance : Nat) : SM State := do
-  let previous_epoch := get_previous_epoch cfg s
-  let current_epoch := get_current_epoch cfg s
+/-- what `weigh_justification_and_finalization` reads besides the finality fields -/
+structure FFGInputs where
+  total_active_balance : Nat
+  previous_epoch_target_balance : Nat
+  current_epoch_target_balance : Nat
+  /-- `get_block_root(state, previous_epoch)`, looked up only when the previous epoch gets justified -/
+  previous_root : Bytes
+  /-- `get_block_root(state, current_epoch)`, looked up only when the current epoch gets justified -/
+  current_root : Bytes
+
+def weigh_inputs (cfg : Config) (s : State)
+    (total_active_balance previous_epoch_target_balance current_epoch_target_balance : Nat) : SM FFGInputs := do
   let _ ← u64 (previous_epoch_target_balance * 3) "target balance * 3"
   let _ ← u64 (current_epoch_target_balance * 3) "target balance * 3"
   let _ ← u64 (total_active_balance * 2) "total balance * 2"
   -- the block roots are looked up only when the spec looks them up
   let previous_root ← if previous_epoch_target_balance * 3 ≥ total_active_balance * 2
-    then get_block_root cfg s previous_epoch else pure ZERO32
+    then get_block_root cfg s (get_previous_epoch cfg s) else pure ZERO32
   let current_root ← if current_epoch_target_balance * 3 ≥ total_active_balance * 2
-    then get_block_root cfg s current_epoch else pure ZERO32
-  pure (withFFG s (weigh_justification_and_finalization_pure previous_epoch current_epoch (ffgOf s)
-    total_active_balance previous_epoch_target_balance current_epoch_target_balance previous_root current_root))
+    then get_block_root cfg s (get_current_epoch cfg s) else pure ZERO32
+  pure ⟨total_active_balance, previous_epoch_target_balance, current_epoch_target_balance, previous_root, current_root⟩
 
-/-- `process_justification_and_finalization` [Modified in Altair] -/
-def process_justification_and_finalization (cfg : Config) (s : State) : SM State := do
+def weigh_justification_and_finalization (cfg : Config) (s : State)
+    (total_active_balance previous_epoch_target_balance current_epoch_target_balance : Nat) : SM State := do
+  let i ← weigh_inputs cfg s total_active_balance previous_epoch_target_balance current_epoch_target_balance
+  pure (withFFG s (weigh_justification_and_finalization_pure (get_previous_epoch cfg s) (get_current_epoch cfg s) (ffgOf s)
+    i.total_active_balance i.previous_epoch_target_balance i.current_epoch_target_balance i.previous_root i.current_root))
+
+/-- The balances `process_justification_and_finalization` feeds into the weighing; `none` = the early
+return of the first two epochs. [Modified in Altair] -/
+def justification_inputs (cfg : Config) (s : State) : SM (Option FFGInputs) := do
   -- Initial FFG checkpoint values have a `0x00` stub for `root`. Skip FFG updates in the first two epochs
-  if get_current_epoch cfg s ≤ GENESIS_EPOCH + 1 then return s
+  if get_current_epoch cfg s ≤ GENESIS_EPOCH + 1 then return none
   let total_active_balance ← get_total_active_balance cfg s
   if s.fork = .phase0 then
     let previous_attestations ← get_matching_target_attestations cfg s (get_previous_epoch cfg s)
     let current_attestations ← get_matching_target_attestations cfg s (get_current_epoch cfg s)
     let previous_target_balance ← get_attesting_balance cfg s previous_attestations
     let current_target_balance ← get_attesting_balance cfg s current_attestations
-    weigh_justification_and_finalization cfg s total_active_balance previous_target_balance current_target_balance
+    some <$> weigh_inputs cfg s total_active_balance previous_target_balance current_target_balance
   else
     let previous_indices ← get_unslashed_participating_indices cfg s TIMELY_TARGET_FLAG_INDEX (get_previous_epoch cfg s)
     let current_indices ← get_unslashed_participating_indices cfg s TIMELY_TARGET_FLAG_INDEX (get_current_epoch cfg s)
     let previous_target_balance ← get_total_balance cfg s previous_indices
     let current_target_balance ← get_total_balance cfg s current_indices
-    weigh_justification_and_finalization cfg s total_active_balance previous_target_balance current_target_balance
+    some <$> weigh_inputs cfg s total_active_balance previous_target_balance current_target_balance
+
+/-- `process_justification_and_finalization` [Modified in Altair] -/
+def process_justification_and_finalization (cfg : Config) (s : State) : SM State := do
+  match ← justification_inputs cfg s with
+  | none => pure s
+  | some i =>
+    pure (withFFG s (weigh_justification_and_finalization_pure (get_previous_epoch cfg s) (get_current_epoch cfg s) (ffgOf s)
+      i.total_active_balance i.previous_epoch_target_balance i.current_epoch_target_balance i.previous_root i.current_root))
 
 /-! ## Rewards and penalties -/
 
